@@ -93,6 +93,14 @@ struct H : drv::Harness
 				if (got != kv.second) { r.fail("stored_differs_from_wire", fam, std::string(when) + ": stored copy of MsgSeqNum " + std::to_string(kv.first) + " is '" + fx::hex(got, 70) + "' (" + std::to_string(got.size()) + " bytes) but '" + fx::hex(kv.second, 70) + "' (" + std::to_string(kv.second.size()) + " bytes) went on the wire"); return; }
 			}
 			for (long s : admin_seqs) { if (app_wire.count(s)) continue; f8String got; if (w.per->get((unsigned)s, got)) { r.fail("admin_stored", fam, std::string(when) + ": administrative message number " + std::to_string(s) + " has a stored copy '" + fx::hex(got, 60) + "'"); return; } }
+			if (auto dv = w.durable_view())
+				for (auto& kv : app_wire)
+				{
+					f8String got;
+					if (!dv->get((unsigned)kv.first, got)) { r.fail("app_not_stored", fam + ":reopened", std::string(when) + ": application message sent with MsgSeqNum " + std::to_string(kv.first) + " is not found by a second persister instance opened on the same files"); return; }
+					if (got != kv.second) { r.fail("stored_differs_from_wire", fam + ":reopened", std::string(when) + ": a second persister instance opened on the same files returns '" + fx::hex(got, 70) + "' (" + std::to_string(got.size()) + " bytes) for MsgSeqNum " + std::to_string(kv.first) + " but '" + fx::hex(kv.second, 70) + "' (" + std::to_string(kv.second.size()) + " bytes) went on the wire"); return; }
+				}
+			else if (w.pers == 2) { r.fail("store_unreadable", fam, std::string(when) + ": a second persister instance cannot open the session's store files"); return; }
 			unsigned last = 0; w.per->get_last_seqnum(last);
 			if ((long)last > max_sent) r.fail("stored_never_sent", fam, std::string(when) + ": persister holds a message under " + std::to_string(last) + " but the highest number sent is " + std::to_string(max_sent));
 		};
@@ -103,6 +111,7 @@ struct H : drv::Harness
 			if (s.terminated) return;
 			if (!s.has_ctrl) { r.fail("control_record_missing", fam, std::string(when) + ": no control record persisted although messages were sent/processed (session next_send=" + std::to_string(s.nss) + " next_receive=" + std::to_string(s.nrs) + ")"); return; }
 			if (s.cs != s.nss || s.ct != s.nrs) r.fail("control_record_stale", fam, std::string(when) + ": persisted control record (" + std::to_string(s.cs) + "," + std::to_string(s.ct) + ") differs from the session's next send/receive (" + std::to_string(s.nss) + "," + std::to_string(s.nrs) + ")");
+			else if (s.durable == 0 || (s.durable == 1 && (s.dcs != s.nss || s.dct != s.nrs))) r.fail("control_record_stale", fam + ":reopened", std::string(when) + ": a second persister instance opened on the same files finds control record " + (s.durable ? "(" + std::to_string(s.dcs) + "," + std::to_string(s.dct) + ")" : std::string("none")) + " but the session's next send/receive is (" + std::to_string(s.nss) + "," + std::to_string(s.nrs) + ")");
 		};
 
 		w.connect();
